@@ -114,6 +114,43 @@ class Check:
         if msg not in self.deferred:
             self.deferred.append(msg)
 
+    def second_opinion(self, fn, decided_by: str, deciding_rule_ok: bool) -> None:  # noqa: ANN001
+        """Run a *structural* rule (one that reads the shape of the code) whose clause is also decided by a
+        semantic rule.  Where the semantic rule holds, the code is right and a structural mismatch - or the
+        structural reading losing its anchors - means only that the code is no longer written the way the reading
+        expects: it becomes a note.  Where the semantic rule fails as well, the structural findings are reported
+        (they usually say *where*)."""
+        shadow = Check(self.prop, self.tier, "")
+        err: str | None = None
+        try:
+            fn(shadow)
+        except AnalysisError as e:
+            err = str(e)
+        for u, k in shadow.units.items():
+            self.count(u, k)
+        self.notes.extend(shadow.notes)
+        self.samples.extend(shadow.samples[:2])
+        if deciding_rule_ok:
+            self.obligations += shadow.obligations
+            self.discharged += shadow.obligations
+            self.nontrivial |= shadow.nontrivial
+            for f in shadow.findings.values():
+                self.notes.append(f"second opinion only ({decided_by} holds): {f.rule} {f.construct}: {f.signature}")
+            if err:
+                self.notes.append(f"second opinion not applicable to this shape ({decided_by} decides): {err}")
+            for d in getattr(shadow, "deferred", []):
+                self.notes.append(f"second opinion undecided ({decided_by} decides): {d}")
+            return
+        self.obligations += shadow.obligations
+        self.discharged += shadow.discharged
+        self.nontrivial |= shadow.nontrivial
+        for k, f in shadow.findings.items():
+            self.findings.setdefault(k, f)
+        for d in getattr(shadow, "deferred", []):
+            self.defer_error(d)
+        if err:
+            self.defer_error(err)
+
     def floor(self, unit: str, minimum: int) -> None:
         got = self.units.get(unit, 0)
         if got < minimum:
